@@ -25,7 +25,9 @@ def thresholds(rec, m):
     for a, b in zip(ds, ds[1:]):
         out += [a, (a + b) / 2.0]
     if ds:
-        out += [ds[-1], ds[-1] * 2 + 1, ds[0] / 2.0]
+        # (just below the best score too - by dyadic factors, the exact regime has no other numbers: a threshold that
+        # only the best entries pass need not be near a midpoint)
+        out += [ds[-1], ds[-1] * 2 + 1, ds[0] / 2.0, ds[-1] * 0.875, ds[-1] * 0.75]
     return out
 
 
@@ -115,6 +117,33 @@ def stepped_plan(rng, adocs):
         return [("commit", ks, {"merge": False})]
     cut = rng.randrange(1, len(ks))
     return [("commit", ks[:cut], {"merge": False}), ("commit", ks[cut:], {"merge": False})]
+
+
+def kw_query(rng):
+    """a term of the keyword field beside scored clauses (only the forms `kw` of stepped_query)"""
+    while True:
+        q = stepped_query(rng)
+        if "tags" in repr(q):
+            return q
+
+
+def flat_docs(rng, n):
+    """every word at most once per document: a everywhere, b in every 2nd / 3rd document, ab here and there (with
+    clauses weighted far below 1 the coordination bonus of a document holding all of them outweighs its own score)"""
+    stride = rng.choice([2, 3])
+    docs = {}
+    for i in range(n):
+        body = [[1]] + ([[2]] if i % stride == 0 else []) + ([[1, 2]] if rng.random() < 0.3 else [])
+        rng.shuffle(body)
+        docs["k%02d" % i] = {"t": {"body": body, "title": []}, "n": {}, "b4": 4}
+    return docs
+
+
+def coord_query(rng):
+    """Or with a coordination bonus over clauses weighted far below 1"""
+    t = lambda c: {"op": "term", "f": "body", "t": [c], "b4": 1}
+    kids = [t(1), t(2)] + ([{"op": "term", "f": "body", "t": [1, 2], "b4": 1}] if rng.random() < 0.3 else [])
+    return {"op": "or", "kids": kids, "b4": 4, "scale": rng.choice([0.9, 0.99, 0.5, 0.99])}
 
 
 def stepped_query(rng):
@@ -250,6 +279,15 @@ def check(run):
                                    ndocs=(12, 30), docgen=stepped_docs, qgen=stepped_query, plangen=stepped_plan,
                                    blocklimits=(1, 2, 3, 4), sweep=True)
     c11.judge_traces(run, "C12", trs, meta, "c12-sweep")
+    c11.NOTIMPL.clear()
+    # ... and a coordination bonus over clauses weighted far below 1, under the weighting whose scores are the
+    # (small) weights themselves: thresholds between the union's own best score and the coordinated one
+    from whoosh import scoring as _sc
+    trs, meta, cases = c11.collect(run, rng, 3 if quick else 20, 6 if quick else 10, "rank", thresholds, quality=True,
+                                   ndocs=(12, 30), docgen=lambda r, n: (flat_docs if r.random() < 0.7 else stepped_docs)(r, n),
+                                   qgen=coord_query, plangen=stepped_plan,
+                                   blocklimits=(1, 2, 3, 4), sweep=True, weighting=("Frequency", _sc.Frequency()))
+    c11.judge_traces(run, "C12", trs, meta, "c12-coord-sweep")
     c11.NOTIMPL.clear()
     # ... and on lists where every document holds all three terms of a conjunction (nested intersections)
     trs, meta, cases = c11.collect(run, rng, 4 if quick else 30, 8 if quick else 12, "exact", thresholds, quality=True,
